@@ -71,92 +71,133 @@ def check(ctx):
         ok = fn is sd or fn is lt
         ctx.ob("env-read.sites", fn, n.ast, ok, "environment consulted by the default route / the load skip guard" if ok else
                "%s reads the environment: a third place decides about variables on its own" % fn.qualname, node=n)
-    # guards
-    def env_guard(fn, recv):
-        out = set()
-        g = an.cfg(fn)
-        for f2, n in sites:
-            if f2 is not fn:
-                continue
-            # the read itself and every test that dominates it / is fed by it
-            out.add(ast.unparse(expand_aliases(fn, n.ast, n)).replace(recv + ".", "F."))
-            for t, tr in dominating_guards(an, fn, n):
-                txt = norm_guard(fn, t, [recv])
-                if "env" in txt:
-                    out.add(("" if tr else "not ") + txt)
-        return out
-    sd_recv = sd.self_name
-    lt_recv = None
-    for n in an.cfg(lt).nodes:
-        if any(e[0] == "ENV_READ" for e in calls.direct(lt, n)) and n.ast.args:
-            a = expand_aliases(lt, n.ast.args[0], n)
-            if isinstance(a, ast.Attribute) and isinstance(a.value, ast.Name):
-                lt_recv = a.value.id
-    ctx.need(lt_recv is not None, "cannot find the field receiver of the skip guard in load_tree")
-    g1, g2 = env_guard(sd, sd_recv), env_guard(lt, lt_recv)
-    ctx.ob("agree.read-guard-skip-guard", lt, "skip guard %s" % sorted(g2), g1 == g2,
-           "load_tree skips a key under exactly the predicate under which __setdefault__ read the variable: %s" % sorted(g1) if g1 == g2 else
-           "the variable is read under %s but document values are skipped under %s" % (sorted(g1), sorted(g2)))
-    # the skip really skips (continue) and the value of the read decides it
-    g = an.cfg(lt)
-    for f2, n in sites:
-        if f2 is lt:
-            par = getattr(n.ast, "_parent", None)
-            is_test = any(t.kind == "test" and t.ast is n.ast for t in g.nodes)
-            ctx.ob("skip.non-empty-only", lt, n.ast, is_test, "the key is skipped only when the variable is set and non-empty" if is_test else
-                   "the skip does not depend on the variable being non-empty", node=n)
-    # the skip happens before to_python / _set_value in the same iteration: load_tree specialised for "the entry belongs to
-    # a Field whose variable is named and set" must not reach the decoder or the store
+    # ---- the two consumers of the variable decide by one predicate: a table over (name setting, variable content) ----------
+    # Both functions are specialised for every combination of the field's env setting (None, False, "", "NAME") and the
+    # variable's content (unset, "", "text").  __setdefault__ must apply the validated variable, and load_tree must skip the
+    # document value, exactly for ("NAME", "text"); everything else stores the default / the document value.  Guards spelled
+    # as isinstance + truthiness, `!= ""`, local flags, conditional expressions or a shared helper all give the same table.
     from engine.specialize import Spec
     set_value = model.method("Config", "_set_value")
-    ftl = an.ft(lt)
-    read_asts = {id(n.ast) for f2, n in sites if f2 is lt}
-
-    def is_env_name(e, node):
-        e2 = expand_aliases(lt, e, node)
-        return isinstance(e2, ast.Attribute) and e2.attr == "env"
-
-    def decide(e, node):
-        if id(e) in read_asts:
-            return True
-        if isinstance(e, ast.Call) and isinstance(e.func, ast.Name) and e.func.id == "isinstance" and len(e.args) == 2:
-            spec = ftl.class_spec(e.args[1], {}) or []
-            if is_env_name(e.args[0], node) and "str" in spec:
-                return True
-            if spec == ["Field"]:
-                return True
-        if is_env_name(e, node):
-            return True
-        if isinstance(e, ast.Call) and isinstance(e.func, ast.Name) and e.func.id == "bool" and len(e.args) == 1:
-            return None
-        return None
-    sp = Spec(an, lt, decide)
-    stored = [x for x in g.nodes if x.kind == "call" and set_value in an.callees(lt, x) and x in sp.normal]
-    decoded = [x for x in g.nodes if x in sp.normal and any(e[0] == "CODEC" and e[2] == "to_python" for e in calls.direct(lt, x))]
-    for f2, n in sites:
-        if f2 is lt:
-            okp = not stored and not decoded
-            ctx.ob("skip.precedes-store", lt, n.ast, okp, "a skipped key is neither decoded nor stored" if okp else
-                   "the value of a skipped key is still %s" % ("stored" if stored else "decoded"), node=(stored or decoded or [n])[0])
-
-    # ---------------------------------------------------------------- C14.2
-    g = an.cfg(sd)
     sdv = model.method("Config", "_set_default_value")
-    stores = [n for n in g.nodes if n.kind == "call" and sdv in an.callees(sd, n)]
-    ctx.need(bool(stores), "Field.__setdefault__ no longer calls _set_default_value")
-    reads = [n for f2, n in sites if f2 is sd]
-    for st in stores:
-        val = st.ast.args[1] if len(st.ast.args) > 1 else None
-        srcs = value_sources(sd, val, st) if val is not None else []
-        has_validated = any(k == "expr" and isinstance(pl, ast.Call) and isinstance(pl.func, ast.Attribute) and pl.func.attr == "validate"
-                            and any(isinstance(x, ast.Name) for x in pl.args[1:2]) for k, pl in srcs)
-        raw = any(k == "expr" and isinstance(pl, ast.Call) and any(r.ast is pl for r in reads) for k, pl in srcs)
-        has_default = any(k == "expr" and isinstance(pl, ast.Attribute) and pl.attr == "default" for k, pl in srcs)
-        ctx.ob("env.validated-value-applied", sd, st.ast, has_validated and not raw,
-               "the value stored for a set variable is self.validate(cfg, <variable>)" if has_validated and not raw else
-               ("the raw variable text is stored without validation" if raw else "the validated variable never reaches _set_default_value"), node=st)
-        ctx.ob("env.default-is-fallback", sd, st.ast, has_default, "the declared default is the fallback" if has_default else
-               "the declared default is no longer applied when no variable is set", node=st)
+    g = an.cfg(lt)
+    gsd = an.cfg(sd)
+    NAME_STATES = ("none", "false", "empty", "name")
+    VAR_STATES = ("unset", "empty", "text")
+
+    def table_decider(fn, ftx, reads, name_state, var_state):
+        read_ids = {id(n.ast) for n in reads}
+
+        def is_env_name(e, node):
+            e2 = expand_aliases(fn, e, node)
+            return isinstance(e2, ast.Attribute) and e2.attr == "env"
+
+        def is_read(e, node):
+            if id(e) in read_ids:
+                return True
+            if isinstance(e, ast.Name):
+                srcs = value_sources(fn, e, node)
+                return bool(srcs) and all(k == "expr" and id(p) in read_ids for k, p in srcs)
+            return False
+
+        def decide(e, node):
+            if isinstance(e, ast.Call) and isinstance(e.func, ast.Name) and e.func.id == "isinstance" and len(e.args) == 2:
+                spec = ftx.class_spec(e.args[1], {}) or []
+                if is_env_name(e.args[0], node) and spec:
+                    return ("str" in spec and name_state in ("empty", "name")) or ("bool" in spec and name_state == "false")
+                if spec == ["Field"]:
+                    return True
+            if is_env_name(e, node):
+                return name_state == "name"
+            if is_read(e, node):
+                return var_state == "text"
+            if isinstance(e, ast.Compare) and len(e.ops) == 1 and isinstance(e.comparators[0], ast.Constant):
+                c = e.comparators[0].value
+                op = e.ops[0]
+                pos = isinstance(op, (ast.Is, ast.Eq))
+                neg = isinstance(op, (ast.IsNot, ast.NotEq))
+                if (pos or neg) and is_env_name(e.left, node) and (c is None or c is False or c == ""):
+                    hit = {None: "none", False: "false", "": "empty"}[c] == name_state
+                    return hit if pos else (not hit)
+                if (pos or neg) and is_read(e.left, node) and (c is None or c == ""):
+                    hit = (var_state == "unset") if c is None else (var_state == "empty")
+                    return hit if pos else (not hit)
+            return None
+        return decide
+
+    def table(fn, gfn, reads, outcome):
+        ftx = an.ft(fn)
+        out = {}
+        for ns in NAME_STATES:
+            for vs in VAR_STATES:
+                if ns != "name" and vs != "unset":
+                    continue        # without a name the variable is never looked at
+                sp_ = Spec(an, fn, table_decider(fn, ftx, reads, ns, vs))
+                out[(ns, vs)] = outcome(sp_)
+        return out
+
+    lt_reads = [n for f2, n in sites if f2 is lt]
+    sd_reads = [n for f2, n in sites if f2 is sd]
+
+    def lt_outcome(sp_):
+        stored = [x for x in g.nodes if x.kind == "call" and set_value in an.callees(lt, x) and x in sp_.normal]
+        decoded = [x for x in g.nodes if x in sp_.normal and any(e[0] == "CODEC" and e[2] == "to_python" for e in calls.direct(lt, x))]
+        if not stored and not decoded:
+            return "skipped"
+        if stored and decoded:
+            return "stored"
+        return "stored-undecoded" if stored else "decoded-not-stored"
+
+    def sd_outcome(sp_):
+        kinds = set()
+        for st in [n for n in gsd.nodes if n.kind == "call" and sdv in an.callees(sd, n) and n in sp_.normal]:
+            val = st.ast.args[1] if len(st.ast.args) > 1 else None
+            for k, pl in (sp_.sources(val, st) if val is not None else [("?", None)]):
+                if k == "expr" and isinstance(pl, ast.Call) and isinstance(pl.func, ast.Attribute) and pl.func.attr == "validate":
+                    kinds.add("validated")
+                elif k == "expr" and isinstance(pl, ast.Attribute) and pl.attr == "default":
+                    kinds.add("default")
+                elif k == "expr" and isinstance(pl, ast.AST) and any(id(x) in {id(r.ast) for r in sd_reads} for x in ast.walk(pl)):
+                    kinds.add("raw")
+                elif k == "expr" and isinstance(pl, ast.Constant) and pl.value is None:
+                    kinds.add("none")
+                else:
+                    kinds.add("?")
+        return kinds
+    lt_table = table(lt, g, lt_reads, lt_outcome)
+    sd_table = table(sd, gsd, sd_reads, sd_outcome)
+    show_state = lambda k: "env=%s, variable %s" % ({"none": "None", "false": "False", "empty": "''", "name": "'NAME'"}[k[0]],
+                                                   {"unset": "unset", "empty": "''", "text": "'text'"}[k[1]])
+    for key in sorted(lt_table):
+        want_env = key == ("name", "text")
+        got = lt_table[key]
+        ok = (got == "skipped") if want_env else (got == "stored")
+        rule = "skip.exists" if want_env else "skip.non-empty-only"
+        ctx.ob(rule, lt, "load_tree with %s" % show_state(key), ok,
+               ("the document value is skipped (neither decoded nor stored)" if want_env else "the document value is decoded and stored") if ok else
+               ("with %s the document value is %s: %s" % (show_state(key), got,
+                "a document loaded afterwards overrides the variable" if want_env else
+                "the skip does not depend on the variable being named and non-empty")))
+        got_sd = sd_table[key]
+        if want_env:
+            ok_sd = "validated" in got_sd and "raw" not in got_sd and "?" not in got_sd and "none" not in got_sd
+            ctx.ob("env.validated-value-applied", sd, "__setdefault__ with %s" % show_state(key), ok_sd,
+                   "the value stored for a set variable is self.validate(cfg, <variable>)" if ok_sd else
+                   ("the raw variable text is stored without validation" if "raw" in got_sd else
+                    "the validated variable never reaches _set_default_value (stored: %s)" % sorted(got_sd)))
+        else:
+            ok_sd = got_sd == {"default"}
+            ctx.ob("env.default-is-fallback", sd, "__setdefault__ with %s" % show_state(key), ok_sd,
+                   "the declared default is stored" if ok_sd else
+                   "with %s __setdefault__ stores %s instead of the declared default" % (show_state(key), sorted(got_sd)))
+        agree = (got == "skipped") == ("validated" in got_sd)
+        ctx.ob("agree.read-guard-skip-guard", lt, "load_tree vs __setdefault__ with %s" % show_state(key), agree,
+               "both sides decide alike" if agree else
+               "with %s __setdefault__ %s the variable but load_tree %s the document value: neither or both win" % (
+                   show_state(key), "applies" if "validated" in got_sd else "does not apply", "skips" if got == "skipped" else "stores"))
+    ctx.ob("skip.precedes-store", lt, "skip before decode/store", lt_table[("name", "text")] == "skipped",
+           "a skipped key is neither decoded nor stored" if lt_table[("name", "text")] == "skipped" else "the value of a skipped key is still %s" % lt_table[("name", "text")])
+    g = gsd
+    reads = sd_reads
     # what validate() receives is the variable's value
     for n in g.nodes:
         if n.kind == "call" and isinstance(n.ast.func, ast.Attribute) and n.ast.func.attr == "validate" and len(n.ast.args) >= 2:
